@@ -69,7 +69,7 @@ func TestProp(t *testing.T) {
 	rep.Assume("for sessions minted by the harness (login refused) group membership on a request with no check due is 'as of the last check': not judged; a session with an empty e-mail cannot be issued (redeem refuses it): not judged where no e-mail rule is configured")
 
 	nConfigs := env.Pick(8, 40)
-	perConfig := env.Pick(512, 1536)
+	perConfig := env.Pick(512, 1024)
 	start := time.Now()
 
 	only, skipMain := env.Only("c11")
@@ -95,7 +95,7 @@ func TestProp(t *testing.T) {
 		"login_denied": 50, "lookalike_probes": 50,
 		"moment_login": 100, "moment_next_request": 100, "moment_revalidation": 100, "moment_refresh": 100,
 		"config_rejected_for_empty_ruleset": 4,
-		"reference_compared_login": 100, "later_compared_login_cookie": 100, "later_compared_minted_cookie": 100,
+		"reference_compared_login":          100, "later_compared_login_cookie": 100, "later_compared_minted_cookie": 100,
 	}
 	for m := 1; m <= 7; m++ {
 		floors["kinds_"+maskName(m)] = 10
